@@ -741,7 +741,11 @@ func (env *Env) callSpec(n *ECall) Val {
 		}
 		return Val{T: "true", Ty: tBool}
 	case "bitand":
-		return Val{T: env.e.W.UF("bits.and", []string{"Int", "Int"}, "Int", arg(0).T, arg(1).T), Ty: tInt}
+		a0, a1 := arg(0), arg(1)
+		if !strings.Contains(a0.T, "q.") && !strings.Contains(a0.T, "!q") {
+			env.e.maskFacts(a0.T, a1.T)
+		}
+		return Val{T: env.e.W.UF("bits.and", []string{"Int", "Int"}, "Int", a0.T, a1.T), Ty: tInt}
 	case "hasType", "dyn":
 		// hasType(x, "*ssa.BinOp"): the dynamic type of interface value x; dyn(x, "*ssa.BinOp"): its payload
 		v := arg(0)
